@@ -63,6 +63,9 @@ def _find_nodes(module_node, pos, until_pos):
 
         nodes = [start_node]
     else:
+        if until_pos < pos:
+            raise RefactoringError('The end of the range is before its start')
+
         # Get the next leaf if we are at the end of a leaf
         if start_node.end_pos == pos:
             next_leaf = start_node.get_next_leaf()
